@@ -144,7 +144,8 @@ func (r *Registry) RegisterNativeModule(name string, loader ModuleLoader) {
 func DefaultSourceLoader(filename string) ([]byte, error) {
 	f, err := os.Open(filename)
 	if err != nil {
-		if errors.Is(err, fs.ErrNotExist) {
+		if errors.Is(err, fs.ErrNotExist) || errors.Is(err, syscall.ENOTDIR) {
+			// ENOTDIR: a component of the candidate path is a regular file, so the candidate does not exist
 			err = ModuleFileDoesNotExistError
 		} else if runtime.GOOS == "windows" {
 			if errors.Is(err, syscall.Errno(0x7b)) { // ERROR_INVALID_NAME, The filename, directory name, or volume label syntax is incorrect.
